@@ -187,8 +187,8 @@ namespace BitSerializer
 				++currentLabelSize;
 				if (const char_type ch = static_cast<char_type>(str[i]); ch == '.')
 				{
-					// The dot cannot be first, last or appear consecutively
-					if (lastDotPos + 1 == i || strSize - 1 == i)
+					// The dot cannot be first (in the local and in the domain part), last or appear consecutively
+					if (lastDotPos + 1 == i || strSize - 1 == i || i == startDomainPos)
 					{
 						isValid = false;
 					}
